@@ -71,3 +71,131 @@ Definition lex_check (letters : list N) (c : str * N * str * option Z) : bool :=
   end.
 Definition lex_mismatches (letters : list N) (cs : list (str * N * str * option Z)) : list N :=
   failing (lex_check letters) cs.
+
+(* ---- types (layer L3) ---- *)
+From PcoreV Require Import Model.Ty Model.TypePrint.
+Open Scope Z_scope.
+
+(* syntactic equality of types (the correspondence compares the decoded structs field by field) *)
+Fixpoint ty_beq (a b : ty) {struct a} : bool :=
+  match a, b with
+  | TAny, TAny | TUnit, TUnit | TUndef, TUndef | TDefault, TDefault | TNumeric, TNumeric | TScalar, TScalar
+  | TScalarData, TScalarData | TString, TString | TBinary, TBinary => true
+  | TBoolean v, TBoolean w => option_eqb Bool.eqb v w
+  | TInteger lo hi, TInteger lo' hi' | TFloat lo hi, TFloat lo' hi' | TStringSz lo hi, TStringSz lo' hi'
+  | TCollection lo hi, TCollection lo' hi' => Z.eqb lo lo' && Z.eqb hi hi'
+  | TStringVal s, TStringVal s' | TRegexp s, TRegexp s' | TOther s, TOther s' => str_eqb s s'
+  | TEnum ci vs, TEnum ci' vs' => Bool.eqb ci ci' && str_eqb_list vs vs'
+  | TPattern rxs, TPattern rxs' => str_eqb_list rxs rxs'
+  | TArray e lo hi, TArray e' lo' hi' => ty_beq e e' && Z.eqb lo lo' && Z.eqb hi hi'
+  | THash k v lo hi, THash k' v' lo' hi' => ty_beq k k' && ty_beq v v' && Z.eqb lo lo' && Z.eqb hi hi'
+  | TTuple ts g lo hi, TTuple ts' g' lo' hi' =>
+    Bool.eqb g g' && Z.eqb lo lo' && Z.eqb hi hi' &&
+    (fix go (l l' : list ty) : bool :=
+       match l, l' with
+       | [], [] => true
+       | x :: r, y :: r' => ty_beq x y && go r r'
+       | _, _ => false
+       end) ts ts'
+  | TStruct ms, TStruct ms' =>
+    (fix go (l l' : list (str * (ty * ty))) : bool :=
+       match l, l' with
+       | [], [] => true
+       | (n, (k, v)) :: r, (n', (k', v')) :: r' => str_eqb n n' && ty_beq k k' && ty_beq v v' && go r r'
+       | _, _ => false
+       end) ms ms'
+  | TVariant ts, TVariant ts' =>
+    (fix go (l l' : list ty) : bool :=
+       match l, l' with
+       | [], [] => true
+       | x :: r, y :: r' => ty_beq x y && go r r'
+       | _, _ => false
+       end) ts ts'
+  | TOptional x, TOptional y | TNotUndef x, TNotUndef y | TType x, TType y | TSensitive x, TSensitive y => ty_beq x y
+  | _, _ => false
+  end.
+
+Fixpoint assoc_float (tbl : list (Z * str)) (k : Z) : str :=
+  match tbl with
+  | [] => []
+  | (k', s) :: r => if Z.eqb k k' then s else assoc_float r k
+  end.
+
+(* a type: (T decoded, T.String(), the decoded result of ParseType(T.String()) if it parsed, the nested types
+   that accept undef (px.IsAssignable(t, Undef)): the oracle for the Struct key convention, whether the resolving
+   half is compared: not for the by-specification exception and the open findings of the text layer).
+   floats: how the implementation renders the float bounds occurring in the cases; lower: strings.ToLower on
+   the Enum values occurring; rx_ok is not consulted (regexp parameters are regexp literals, not strings). *)
+Definition type_check (floats : list (Z * str)) (c : ty * str * option ty * list ty * bool) : bool :=
+  let '(t, text, t2, au, full) := c in
+  let accepts_undef x := existsb (ty_beq x) au in
+  str_eqb (print_ty (assoc_float floats) accepts_undef t) text &&
+  (if full then
+     match reparse (fun s => s) (fun _ => true) accepts_undef t, t2 with
+     | COk r, Some r' => ty_beq r r'
+     | CErr, None => true
+     | _, _ => false
+     end
+   else true).
+Definition type_mismatches (floats : list (Z * str)) (cs : list (ty * str * option ty * list ty * bool)) : list N :=
+  failing (type_check floats) cs.
+
+(* ---- tokens <-> expressions (layer L2) ---- *)
+From PcoreV Require Import Model.TokenParse.
+
+Fixpoint assoc_str (tbl : list (str * str)) (k : str) : str :=
+  match tbl with
+  | [] => k
+  | (k', s) :: r => if str_eqb k k' then s else assoc_str r k
+  end.
+
+(* the observed floats are given by the decimal text of their bits; the model keeps the token text: translate *)
+Fixpoint norm_floats (tbl : list (str * str)) (v : pval) : pval :=
+  match v with
+  | PVFloat t => PVFloat (assoc_str tbl t)
+  | PVArr es => PVArr (map (norm_floats tbl) es)
+  | PVHash kvs => PVHash (map (fun kv => (norm_floats tbl (fst kv), norm_floats tbl (snd kv))) kvs)
+  | PVEntry k x => PVEntry (norm_floats tbl k) (norm_floats tbl x)
+  | PVType n (Some ps) => PVType n (Some (map (norm_floats tbl) ps))
+  | _ => v
+  end.
+
+Fixpoint pval_beq (a b : pval) {struct a} : bool :=
+  match a, b with
+  | PVUndef, PVUndef | PVDefault, PVDefault => true
+  | PVBool x, PVBool y => Bool.eqb x y
+  | PVInt x, PVInt y => Z.eqb x y
+  | PVFloat x, PVFloat y | PVStr x, PVStr y | PVRegexp x, PVRegexp y => str_eqb x y
+  | PVArr l, PVArr l' =>
+    (fix go (l l' : list pval) : bool :=
+       match l, l' with [], [] => true | x :: r, y :: r' => pval_beq x y && go r r' | _, _ => false end) l l'
+  | PVHash l, PVHash l' =>
+    (fix go (l l' : list (pval * pval)) : bool :=
+       match l, l' with
+       | [], [] => true
+       | (k, x) :: r, (k', y) :: r' => pval_beq k k' && pval_beq x y && go r r'
+       | _, _ => false
+       end) l l'
+  | PVEntry k x, PVEntry k' y => pval_beq k k' && pval_beq x y
+  | PVType n None, PVType n' None => str_eqb n n'
+  | PVType n (Some l), PVType n' (Some l') =>
+    str_eqb n n' &&
+    (fix go (l l' : list pval) : bool :=
+       match l, l' with [], [] => true | x :: r, y :: r' => pval_beq x y && go r r' | _, _ => false end) l l'
+  | _, _ => false
+  end.
+
+(* the parser on a token stream: (tokens without the end token, the value types.Parse returned or None for an error).
+   Every regexp token of these cases compiles or the implementation reports the error: rx_ok is given per case by
+   the outcome (a text with a regexp that does not compile is an error in both). *)
+Definition parse_check (pfloats : list (str * str)) (c : list tok * option pval) : bool :=
+  let '(ts, obs) := c in
+  match parse_tokens (fun _ => true) ts, obs with
+  | POk v, Some v' => pval_beq (norm_floats pfloats v) v'
+  | PErr, None => true
+  | PUnmodelled, _ => true
+  | POk _, None => existsb (fun t => match t with KRegexp _ => true | _ => false end) ts   (* a regexp that does not compile *)
+  | _, _ => false
+  end.
+Definition parse_mismatches (pfloats : list (str * str)) (cs : list (list tok * option pval)) : list N :=
+  failing (parse_check pfloats) cs.
